@@ -158,6 +158,7 @@ fn scene_case() -> BoxedStrategy<Case> {
                     gen_start: 0,
                     wrap_ok: false,
                     max_rounds: 0,
+                    read_every: None,
                 },
                 path,
                 continuation,
@@ -380,6 +381,7 @@ pub fn witness_kf() -> Case {
             gen_start: 0,
             wrap_ok: false,
             max_rounds: 0,
+            read_every: None,
         },
         path: 0,
         continuation: vec![Op::Match { size: MatchSize::Exact(4) }],
